@@ -251,10 +251,10 @@ def explore(ctx):
         cases.append(host_case(n[:6] + '.' + ''.join(rng.choice('0123456789') for _ in range(rng.randint(1, 8)))))
         cases.append(host_case(n[:rng.choice([3, 9, 17, 18, 19, 25])] + '%'))
         cases.append(host_case(str(rng.randint(0, 30)) + '^' + str(rng.randint(0, 12))))
-        body = ''.join(rng.choice(u'ab 1,;\\()+é中\t#') for _ in range(rng.randint(0, 8)))
+        body = ''.join(rng.choice(u'ab 1,;\\()+é中\t#\'"') for _ in range(rng.randint(0, 8)))
         if not body.endswith('\\'):
-            cases.append(host_case('"%s"' % body))
-            cases.append(host_case("'%s'" % body))
+            cases.append(host_case('"%s"' % body.replace('"', '')))
+            cases.append(host_case("'%s'" % body.replace("'", '')))
     compare(R, ctx, 'parse', cases, interp.enc_case, _impl, key=lambda c: c['formula'], eq=interp.eq_case)
     # ---- oracle
     work = [('slots', pat) for pat in pats] + [('misc', 0)]
@@ -267,10 +267,13 @@ def explore(ctx):
         work.append(('literal', ('dec', rng.choice(['', str(rng.randint(0, 999))]), ''.join(rng.choice('0123456789') for _ in range(rng.randint(1, 10))))))
         work.append(('literal', ('pct', str(rng.randint(0, 10 ** rng.choice([3, 6, 17, 18, 19, 30]))), None)))
         work.append(('literal', ('pow', str(rng.randint(0, 40)), str(rng.randint(0, 15)))))
-        body = ''.join(rng.choice(u'abXY 019,;()+-*/&<>=é中\t#!?$:.{}%^\\') for _ in range(rng.randint(0, 12)))
+        body = ''.join(rng.choice(u'abXY 019,;()+-*/&<>=é中\t#!?$:.{}%^\\\'"\'"') for _ in range(rng.randint(0, 12)))
         work.append(('literal', ('str', body.replace('"', ''), '"')))
         work.append(('literal', ('str', body.replace("'", ''), "'")))
     work.append(('literal', ('str', 'abc\\', '"')))
+    for b in ("'quoted'", "rock 'n'", "'", "''", "'tis", "it's", "a'"):
+        work.append(('literal', ('str', b, '"')))
+        work.append(('literal', ('str', b.replace("'", '"'), "'")))
     for vs in pmap(_worker, work):
         for (k, c, w, cls, e, g) in vs:
             R.violate({k: list(c) if isinstance(c, tuple) else c}, w, cls, repr(e), repr(g))
